@@ -400,6 +400,9 @@ func main() {
 			fmt.Sscan(os.Args[i+3], &n)
 			recWorker(idx, n, os.Args[i+4] == "thorough", os.Args[i+5])
 			return
+		case "--seq-worker":
+			seqWorker(os.Args[i+2], os.Args[i+3] == "quick", os.Args[i+4], os.Args[i+5])
+			return
 		case "--snap":
 			snapChild(os.Args[i+2])
 			return
@@ -476,6 +479,30 @@ func main() {
 			}(mode, n)
 		}
 	}
+	// 4. sequences through the entry points that reuse package-level buffers (seq.go)
+	seqRes := map[string]*seqResult{}
+	for _, f := range []string{"U", "C"} {
+		wg.Add(1)
+		go func(f string) {
+			defer wg.Done()
+			t0 := time.Now()
+			d := ev.Scratch("c10-seq")
+			defer os.RemoveAll(d)
+			out := d + "/result.json"
+			if err := runChild("--seq-worker", f, tier, d, out); err != nil {
+				ev.HarnessError("sequence worker %s: %v", f, err)
+			}
+			var sr seqResult
+			bs, err := os.ReadFile(out)
+			if err != nil || json.Unmarshal(bs, &sr) != nil {
+				ev.HarnessError("sequence worker left no result: %v", err)
+			}
+			fmt.Fprintf(os.Stderr, "timing: sequence worker %s: %.1fs\n", f, time.Since(t0).Seconds())
+			smu.Lock()
+			seqRes[f] = &sr
+			smu.Unlock()
+		}(f)
+	}
 	var aborts []snapOutcome
 	for _, setup := range abortSetups {
 		for _, mode := range abortModes {
@@ -545,6 +572,28 @@ func main() {
 		for _, v := range o.viol { // smallest pool first: snaps is sorted by n within a mode
 			vc[v.Key]++
 			r.Report(v.Key, fmt.Sprintf("%s [pool of %d records]", v.What, o.n), map[string]interface{}{"kind": "snapshot", "mode": o.mode, "n": o.n})
+		}
+	}
+	seqCov := map[string]interface{}{}
+	seqEvals := 0
+	for _, f := range []string{"U", "C"} {
+		sr := seqRes[f]
+		seqCov[f] = map[string]interface{}{"decodes_and_lookups": sr.Evals, "sequences_by_length": sr.Seqs, "purge_databases": sr.DBs, "purge_lookups": sr.Lookups}
+		seqEvals += sr.Evals + sr.Lookups
+		outcome := "independent"
+		if len(sr.Viol) > 0 {
+			outcome = "differs"
+		}
+		tot.Shapes["sequence|"+f+"|"+outcome]++
+		var ks []string
+		for k := range sr.Viol {
+			ks = append(ks, k)
+		}
+		sort.Strings(ks)
+		for _, k := range ks {
+			v := sr.Viol[k]
+			vc[k] += v.Count
+			r.Report(k, fmt.Sprintf("%s [%d sequences]", v.What, v.Count), map[string]interface{}{"kind": "sequence", "format": f, "sequence": v.Seq})
 		}
 	}
 	sort.Slice(aborts, func(i, j int) bool { return aborts[i].mode < aborts[j].mode })
